@@ -50,11 +50,51 @@ func multiWriteOp(g *gen, md *model) (opSpec, *model, bool) {
 	return opSpec{}, nil, false
 }
 
+// replaceCover: a base state with learner rules and ONE covering voter rule, and an update that
+// replaces the covering rule by another one (two or more storage writes: in between, the stored
+// rules have no voter at all).
+func replaceCover(g *gen) ([]opSpec, *model, opSpec, *model, bool) {
+	md := initialModel()
+	var base []opSpec
+	for i, n := 0, 1+g.rng.Intn(2); i < n; i++ {
+		r := g.rule("", "")
+		r.Role, r.Override = "learner", false
+		op := opSpec{Kind: kSetRule, Rule: &r}
+		if nm, ok := accepts(md, op); ok {
+			md, base = nm, append(base, op)
+		}
+	}
+	nr := ruleSpec{Group: g.pick([]string{"a", "ab", "b"}), ID: g.pick(ruleIDs), Role: "voter", Count: 1 + g.rng.Intn(3)}
+	var op opSpec
+	if g.rng.Intn(2) == 0 {
+		op = opSpec{Kind: kBatch, Batch: []batchSpec{{Action: "del", Rule: ruleSpec{Group: "pd", ID: "default"}}, {Action: "add", Rule: nr}}}
+	} else {
+		op = opSpec{Kind: kSetAllGroupBundles, OverrideAll: false, Bundles: []bundleSpec{{ID: "pd"}, {ID: nr.Group, Rules: append([]ruleSpec{nr}, specsOfGroup(md, nr.Group, nr.ID)...)}}}
+	}
+	n, ok := accepts(md, op)
+	return base, md, op, n, ok
+}
+
+func specsOfGroup(md *model, group, except string) []ruleSpec {
+	var out []ruleSpec
+	for _, r := range md.rulesOfGroup(group) {
+		if r.ID != except {
+			c := *r
+			c.cs = ""
+			out = append(out, c)
+		}
+	}
+	return out
+}
+
 func runWriterVsReader(r *ev.Run, rng *rand.Rand) {
 	g := &gen{rng: rng}
 	for c, cases := 0, r.Pick(16, 120); c < cases; c++ {
 		base, md0 := twBase(g)
 		op, md1, ok := multiWriteOp(g, md0)
+		if c%4 == 3 {
+			base, md0, op, md1, ok = replaceCover(g)
+		}
 		if !ok {
 			continue
 		}
@@ -167,6 +207,9 @@ func runWriterVsInitialize(r *ev.Run, rng *rand.Rand) {
 	for c, cases := 0, r.Pick(10, 80); c < cases; c++ {
 		base, md0 := twBase(g)
 		op, md1, ok := multiWriteOp(g, md0)
+		if c%2 == 1 {
+			base, md0, op, md1, ok = replaceCover(g)
+		}
 		if !ok || md1 == md0 {
 			continue
 		}
